@@ -136,6 +136,7 @@ impl EventGen for ReuseElement {
                     context.pop_element();
                 })?;
             if let Some(own_bbox) = own_bbox {
+                pos.update_size(&own_bbox.size());
                 pos.move_by_attrs(&mut instance_element, &own_bbox);
             }
         } else {
